@@ -12,7 +12,8 @@ Row = identity form (DNS 3/4 labels, IDN, upper case, single label, IPv4, IPv6 i
       x validity (valid, expired, not yet valid)
       x trust configuration (CA file, hashed CA directory, default store)
       x ssl_insecure
-      x how the handshake is started (server already connected / opened by the child / SNI taken from a client hello)
+      x how the handshake is started (server already connected / opened by the child / SNI taken from a client hello /
+        server.sni set explicitly and different from the address)
       x TLS 1.2 / 1.3.
 The quick tier enumerates a pairwise-style reduced matrix exhaustively (every SAN shape x every identity form x every
 chain/validity/trust/insecure value, with the remaining coordinates rotated), then Hypothesis varies names and mixes
@@ -54,8 +55,8 @@ ASSUMPTIONS = [
 LEVEL_TEXT = ("finite certificate/identity/trust matrix enumerated (reduced product) plus randomized rows, each decided by "
               "a real handshake and compared with a decision table written from RFC 6125/5280")
 LEVEL_NOTE = "trusts Python ssl as server peer, the cryptography library for certificate construction"
-QUICK_N, THOROUGH_N = 6_000, 300_000
-BUDGET_S = (150, 3600)
+QUICK_N, THOROUGH_N = 16_000, 400_000
+BUDGET_S = (240, 3600)
 
 MARKER = b"C15-application-data-marker"
 
@@ -67,7 +68,7 @@ SAN_IP = ["ip-exact", "ip-multi", "ip-mismatch", "ip-as-dns", "cn-only", "dns-on
 CHAINS = ["direct", "self-signed", "untrusted-ca", "inter-sent", "inter-missing", "inter-expired"]
 TIMES = ["valid", "expired", "not-yet"]
 TRUSTS = ["file", "dir", "default"]
-MODES = ["eager", "lazy", "client-sni"]
+MODES = ["eager", "lazy", "client-sni", "explicit-sni"]
 VERS = ["1.3", "1.2"]
 
 _DEFAULT_LABELS = {"dns3": ["www", "example", "test"], "dns4": ["a", "b", "example", "test"], "idn": ["bücher", "example", "test"],
@@ -190,7 +191,7 @@ def fails_closed_ok(case) -> bool:
 
 
 # ------------------------------------------------------------------------------------------------ strategies
-_lab = st.text("abcdefghijklmnopqrstuvwxyz0123456789", min_size=2, max_size=10)
+_lab = st.text("abcdefghijklmnopqrstuvwxyz0123456789", min_size=2, max_size=5)  # keeps every name <= 64 chars (CN limit)
 _lab_h = st.one_of(_lab, st.tuples(_lab, _lab).map(lambda t: t[0] + "-" + t[1]))
 _ulab = st.tuples(_lab, st.sampled_from(["ü", "é", "例", "αβ"]), st.text("abc", max_size=3)).map(lambda t: t[0] + t[1] + t[2])
 
@@ -245,7 +246,7 @@ def matrix():
             for chain, time, trust in combos:
                 for insecure in (False, True):
                     rows.append({"ident": ident, "san": san, "chain": chain, "time": time, "trust": trust, "insecure": insecure,
-                                 "mode": MODES[i % 3], "ver": VERS[(i // 3) % 2], "followup": (i // 2) % 2 == 0,
+                                 "mode": MODES[(i + i // 16) % 4], "ver": VERS[(i // 4 + i // 64) % 2], "followup": (i // 2 + i // 32) % 2 == 0,
                                  "split": [0, 1, 7][i % 3]})
                     i += 1
     return rows
@@ -316,10 +317,12 @@ def check_case(case, ctx):
     S = T.PyPeer(sctx, True)
     if mode == "client-sni":
         addr = ("203.0.113.9", 443)
+    elif mode == "explicit-sni":
+        addr = ("elsewhere.example.test", 443)  # an addon/mode set server.sni: the certificate must name *that*
     else:
         addr = (host, 443)
     d, c, rec, layers = T.make_stack(e, client_tls=(mode == "client-sni"), server_tls=True, server_open=(mode != "lazy"),
-                                     server_address=addr)
+                                     server_address=addr, server_sni=host if mode == "explicit-sni" else None)
     wire = bytearray()
     peer_errors = []
 
